@@ -5,3 +5,7 @@ import TsVerif.C20.Props
 #print axioms TsVerif.C20.updateEntries_keys
 #print axioms TsVerif.C20.updateEntries_keys_fixed
 #print axioms TsVerif.C20.update_preserves_partial
+#print axioms TsVerif.C20.parse_write_roundtrip_partial
+#print axioms TsVerif.C20.update_preserves_simple
+#print axioms TsVerif.C20.roundtrip_fails_delimiter_in_input
+#print axioms TsVerif.C20.format_sexp_quote_state
